@@ -513,7 +513,8 @@ Qed.
    [sample_ids_fresh] ("the ids are what the encoder answers on the current names without a mapping") of every screen built
    without mappings and - for the plate ids - of the parent after every merge (clause 5 below). *)
 From Batchie Require Import Lib.PyRt Model.Views Model.RetroHoldout Generated.SrcViews Generated.SrcPlates
-  Proofs.C14Defs Proofs.C14ToScreen Proofs.C13SourceHelpers.
+  Proofs.C14Defs Proofs.C14ToScreen Proofs.C13SourceHelpers_Base Proofs.C13SourceHelpers_Merge Proofs.C13SourceHelpers_Plates
+  Proofs.C13SourceHelpers_Order Proofs.C13SourceHelpers_SampleIds Proofs.C13SourceHelpers_PlateSampleIds.
 
 (* primitive `__b.merge(__a)` -> [Retro.merge] (C13_MERGEMIN, C13_MERGETB): the translated Plate.merge on two plates of one screen
    object, of the parent's length, with a non-empty union, succeeds; the merged plate and the parent's rows afterwards are the
